@@ -636,6 +636,12 @@ class Interp:
                             x = int(x)
                         if isinstance(x, int):
                             nxt = tg.get(str(x))
+                            if nxt is None and x < 0:
+                                # switch values are printed as the unsigned bit pattern of the operand's width
+                                for wbits in (8, 16, 32, 64, 128):
+                                    nxt = tg.get(str(x + (1 << wbits)))
+                                    if nxt is not None:
+                                        break
                             if nxt is None:
                                 nxt = tg['otherwise']
                         else:
